@@ -20,7 +20,7 @@ RULE = ("seeded random histories over non-constant float view families (base = l
         "statement upstream of L and >=3 judged directions; distinct = structure hash.")
 ASSUMPTIONS = ["NumPy's in-place semantics on the same statements define 'the equivalent purely functional program'",
                "constant tensors are never in-place targets here (their flag semantics are C10's)", "kinks / ill-conditioned directions skipped and counted"]
-TIERS = {"quick": {"cases": 2500, "nstmts": (3, 10)}, "thorough": {"cases": 150000, "nstmts": (4, 24)}}
+TIERS = {"quick": {"cases": 8000, "nstmts": (3, 10)}, "thorough": {"cases": 150000, "nstmts": (4, 24)}}
 FLOORS = {"quick": {"fd_ok": 15000, "inplace_stmts": 3000},
           "thorough": {"fd_ok": 75000, "inplace_stmts": 15000}}
 SKIP_BUDGET = {"fd": ("fd_skipped", "fd_dirs", 0.15)}
